@@ -442,9 +442,12 @@ func ulreqRoundTrip(m ulreqModel) rtResult {
 	}
 	var keep []string
 	for _, f := range cur.feat {
-		if f != "sha1" {
+		if f != "sha1" && f != "sha256" {
 			keep = append(keep, f)
 		}
+	}
+	if len(keep) == 0 {
+		keep = []string{hszName(m.hsz)}
 	}
 	res.failKey = base[0] + ":" + base[1] + ":" + strings.Join(keep, ",")
 	return res
@@ -518,7 +521,7 @@ func otherCases(r *rand.Rand, k int) []simpleCase {
 			return strings.Join(s, " ")
 		}
 		v := &packp.ServerResponse{ACKs: acks}
-		out = append(out, simpleCase{msg: "ServerResponse", shape: feat + "," + hn, feat: []string{feat, hn}, want: canon(acks),
+		out = append(out, simpleCase{msg: "ServerResponse", shape: feat + "," + hn, feat: []string{feat}, want: canon(acks),
 			enc: func(b *bytes.Buffer) error { return v.Encode(b) },
 			dec: func(w []byte) (string, error) {
 				g := &packp.ServerResponse{}
